@@ -290,6 +290,10 @@ def replay_stages(ctx, cands):
                 # a --set value is computed once, from the expression alone: it never depends on a record
                 r = run_jawk(ctx, ['--set', 'v=(default . 7)', '--set', '@m=(+ . 1)', '--select', '(default :v)=v', '--select', '(default @m)=m', '--style', 'consise'], b'1 2 3')
                 exp = '{"v":null,"m":2}\n{"v":null,"m":3}\n{"v":null,"m":4}\n'
+                r3 = run_jawk(ctx, ['--set', 'v=1', '--select', '&index=i', '--style', 'consise'], b'7 8')
+                if show(r3['stdout']) != '{"i":0}\n{"i":1}\n':
+                    c.replay = {'argv': ['--set', 'v=1', '--select', '&index=i'], 'stdin': '7 8', 'expected': '{"i":0}\n{"i":1}\n', 'actual': show(r3['stdout'])}
+                    c.status = 'reproduced'; continue
                 if show(r['stdout']) != exp:
                     c.replay = {'argv': ['--set', 'v=(default . 7)', '--set', '@m=(+ . 1)', '--select', '(default :v)=v', '--select', '(default @m)=m'], 'stdin': '1 2 3', 'expected': exp, 'actual': show(r['stdout'])}
                     c.status = 'reproduced'; continue
